@@ -33,6 +33,7 @@ var schemaFmtOpts = func() []fmtOpts {
 }()
 
 func formatSchemaDoc(doc *ast.SchemaDocument, o fmtOpts) (text, crash string) {
+	defer guard("formatter.FormatSchemaDocument", o.String())()
 	defer func() {
 		if r := recover(); r != nil {
 			crash = fmt.Sprintf("panic: %v", r)
@@ -44,6 +45,7 @@ func formatSchemaDoc(doc *ast.SchemaDocument, o fmtOpts) (text, crash string) {
 }
 
 func formatSchema(s *ast.Schema, o fmtOpts) (text, crash string) {
+	defer guard("formatter.FormatSchema", o.String())()
 	defer func() {
 		if r := recover(); r != nil {
 			crash = fmt.Sprintf("panic: %v", r)
